@@ -358,7 +358,7 @@ func genMalformed(r *h.Rand) []string {
 func gen(r *h.Rand, tier string, emit func([]string)) {
 	n := 1200
 	if tier == "thorough" {
-		n = 30000
+		n = 8000
 	}
 	// fixed regression shapes first
 	for _, c := range fixedCases() {
